@@ -45,7 +45,7 @@ def run(ctx):
     # exhaustive sweep: every Unicode scalar value in each kind of description position; anything accepted must be RFC 4512-valid
     templates = ["({c}=x)", "(a{c}=x)", "(a;{c}=x)", "(:{c}:=x)"] if ctx.tier == "thorough" else ["({c}=x)", "(a{c};b{c}=x)"]
     from codec import sansldap as _s
-    from sansldap._filter import FilterSyntaxError as _FSE
+    _FSE = C.FilterSyntaxError
     swept = 0
     for tpl in templates:
         for cp in range(0x110000):
